@@ -44,6 +44,14 @@ ASSUMPTIONS = [
     "ASCII identifiers only (CPython's Unicode capitalize()/int() accept e.g. non-ASCII digits); int and str arguments only (the documented Union[int, str])",
     "isotopic compositions are compared exactly in the Lean rebuild where the script compares floats (tabulated values are far apart relative to double spacing)",
 ]
+LEVEL_TEXT = (
+    "proof over the whole finite table by kernel evaluation (decide +kernel, no native_decide) of tables regenerated from /repo on every run — the "
+    "shipped table equals the documented rebuild of the raw NIST SRD-144 file, every alias form of every element and every nuclide label resolves "
+    "to its own row, float masses are the nearest doubles — plus general theorems for arbitrary tables and ASCII texts (case-insensitivity, "
+    "no-wrong-species, strict mode, period/group layout for every Z); tied to periodic_table.py by an exhaustive correspondence over the table x "
+    "alias forms x cases x accessors and an independent oracle reading the raw NIST JSON and a textbook 18-column layout."
+)
+TECHNIQUE = "Lean 4 kernel evaluation of translator-generated tables + general string-model theorems + exhaustive correspondence"
 RULE = (
     "exhaustive: every element row x {int Z, str Z, symbol, name} and every nuclide label x {as-is, lower, upper, random mixed case} "
     "x accessors {to_Z,to_E,to_element (strict off/on), to_A, to_mass (Decimal+float), to_period, to_group}; plus an out-of-table "
